@@ -19,6 +19,7 @@ THEOREMS = [
     "Typedpy.C13.elabField_future_irrelevant", "Typedpy.C13.fixed_future_long",
     "Typedpy.C13.counterexample_falsy_default_kw",
     "Typedpy.C13.counterexample_union_duplicate", "Typedpy.C13.statement_false",
+    "Typedpy.C13.none_first_equiv", "Typedpy.C13.none_inner_optional", "Typedpy.C13.hasNoneOpt_position",
     "Typedpy.C13.equiv_example",
 ]
 RULE = ("class bodies of 1-3 fields; each field an abstract meaning tree (scalar / constrained field literal / bare or "
@@ -53,7 +54,7 @@ def pre_build():
 
 
 def cases(rng, tier):
-    return S.gen_cases(rng, tier, 600 if tier == "quick" else 3500)
+    return S.gen_cases(rng, tier, 480 if tier == "quick" else 3200)
 
 
 def search_cases(rng, tier):
